@@ -34,11 +34,24 @@ type ATTx struct {
 // case 2. not need flush undolog, is XA mode, do local transaction commit
 // case 3. need run AT transaction
 func (tx *ATTx) Commit() error {
+	// whatever the outcome, the local transaction is over: the connection is in auto-commit mode again
+	defer tx.backToAutoCommit()
 	tx.tx.beforeCommit()
 	return tx.commitOnAT()
 }
 
+// backToAutoCommit marks the connection as being outside a local transaction. database/sql resets the
+// session only when a connection comes out of the pool, so without this the next auto-commit statement
+// on the same (pinned) connection would find the flag still cleared, open no local transaction of its
+// own, and be committed by the database with no branch and no undo log.
+func (tx *ATTx) backToAutoCommit() {
+	if tx.tx.conn != nil {
+		tx.tx.conn.autoCommit = true
+	}
+}
+
 func (tx *ATTx) Rollback() error {
+	defer tx.backToAutoCommit()
 	err := tx.tx.Rollback()
 	if err != nil {
 
